@@ -16,9 +16,12 @@ pub const METHODS: [&str; 4] = ["GET", "POST", "HEAD", "PUT"];
 pub const PATHS: [&str; 6] = ["/ws", "/ws/", "/WS", "/health", "/version", "/elsewhere"];
 /// header variants: 0 exact, 1 case-changed, 2 near-miss, 3 absent, 4 empty, 5 duplicated-identical
 pub const N_HVAR: u8 = 6;
-/// PSK header variants: 0 equal, 1 absent, 2 prefix, 3 case-variant, 4 padded
-pub const N_PSK: u8 = 5;
-const PSK: &str = "s3cret-Key";
+/// PSK header variants: 0 equal, 1 absent, 2 prefix, 3 case-variant, 4 padded, 5 another key over
+/// the same alphabet, 6 a key over the other alphabet
+pub const N_PSK: u8 = 7;
+/// configured keys: header values are opaque octets (RFC 9110 obs-text), so a key need not be ASCII
+const PSKS: [&str; 2] = ["s3cret-Key", "s3cr\u{e9}t-K\u{e9}y\u{ff}"];
+const OTHER_PSKS: [&str; 2] = ["an0ther-Key", "contrase\u{f1}a"];
 const KEY: &str = "dGhlIHNhbXBsZSBub25jZQ==";
 
 #[derive(Serialize, Deserialize, Clone, Debug)]
@@ -30,6 +33,9 @@ pub struct C14Plan {
     /// variants of Connection, Upgrade, Sec-WebSocket-Version, Sec-WebSocket-Protocol, Sec-WebSocket-Key
     pub hv: [u8; 5],
     pub psk: u8,
+    /// which key the server is configured with: 0 ASCII, 1 with octets >= 0x80
+    #[serde(default)]
+    pub psk_kind: u8,
     /// fragment sizes (cycled; empty = one write) and the delay between fragments
     pub frags: Vec<usize>,
     pub frag_delay_ms: u64,
@@ -59,12 +65,16 @@ pub fn build_request(p: &C14Plan, path: &str) -> String {
     s += &header_lines("Sec-WebSocket-Version", "13", "13", "12", p.hv[2]);
     s += &header_lines("Sec-WebSocket-Protocol", "penguin-v7", "Penguin-V7", "penguin-v6", p.hv[3]);
     s += &header_lines("Sec-WebSocket-Key", KEY, KEY, KEY, p.hv[4]);
+    let kind = (p.psk_kind % 2) as usize;
+    let key = PSKS[kind];
     s += &match p.psk % N_PSK {
-        0 => format!("X-Penguin-PSK: {PSK}\r\n"),
+        0 => format!("X-Penguin-PSK: {key}\r\n"),
         1 => String::new(),
-        2 => format!("X-Penguin-PSK: {}\r\n", &PSK[..PSK.len() - 1]),
-        3 => format!("X-Penguin-PSK: {}\r\n", PSK.to_ascii_uppercase()),
-        _ => format!("X-Penguin-PSK: {PSK}x\r\n"),
+        2 => format!("X-Penguin-PSK: {}\r\n", &key[..key.len() - 2]),
+        3 => format!("X-Penguin-PSK: {}\r\n", key.to_ascii_uppercase()),
+        4 => format!("X-Penguin-PSK: {key}x\r\n"),
+        5 => format!("X-Penguin-PSK: {}\r\n", OTHER_PSKS[kind]),
+        _ => format!("X-Penguin-PSK: {}\r\n", OTHER_PSKS[1 - kind]),
     };
     s += "Content-Length: 0\r\n\r\n";
     s
@@ -258,8 +268,8 @@ pub fn run(plan: &C14Plan, sched: &Sched) -> Outcome {
                 });
             }
         });
-        static PSK_HV: std::sync::OnceLock<http::HeaderValue> = std::sync::OnceLock::new();
-        let psk: Option<&'static http::HeaderValue> = if p.psk_on { Some(PSK_HV.get_or_init(|| http::HeaderValue::from_static(PSK))) } else { None };
+        static PSK_HV: std::sync::OnceLock<[http::HeaderValue; 2]> = std::sync::OnceLock::new();
+        let psk: Option<&'static http::HeaderValue> = if p.psk_on { Some(&PSK_HV.get_or_init(|| [http::HeaderValue::from_str(PSKS[0]).expect("key"), http::HeaderValue::from_str(PSKS[1]).expect("key")])[(p.psk_kind % 2) as usize]) } else { None };
         static BACKEND: std::sync::OnceLock<rusty_penguin_lib::arg::BackendUrl> = std::sync::OnceLock::new();
         let backend = if p.backend % 3 == 0 { None } else { Some(BACKEND.get_or_init(|| std::str::FromStr::from_str("http://127.0.0.1:8000").expect("backend url"))) };
         let state = State::new().await.expect("state").with_not_found_resp("nothing to see here").with_ws_psk(psk).obfs(p.obfs).with_backend(backend);
@@ -312,10 +322,11 @@ pub fn run(plan: &C14Plan, sched: &Sched) -> Outcome {
     let exp = expect(plan);
     let path = PATHS[(plan.path as usize) % 6];
     let desc = format!(
-        "{} {} (PSK configured: {}, obfs: {}, backend: {}), header variants [Connection, Upgrade, Version, Protocol, Key] = {:?} (0 exact, 1 case-changed, 2 near-miss, 3 absent, 4 empty, 5 duplicated), PSK header variant {} (0 equal, 1 absent, 2 prefix, 3 case, 4 padded), fragments {:?} every {} ms -> {:?} / {:?}",
+        "{} {} (PSK configured: {}{}, obfs: {}, backend: {}), header variants [Connection, Upgrade, Version, Protocol, Key] = {:?} (0 exact, 1 case-changed, 2 near-miss, 3 absent, 4 empty, 5 duplicated), PSK header variant {} (0 equal, 1 absent, 2 prefix, 3 case, 4 padded, 5 another key, 6 a key over the other alphabet), fragments {:?} every {} ms -> {:?} / {:?}",
         METHODS[(plan.method as usize) % 4],
         path,
         plan.psk_on,
+        if plan.psk_on && plan.psk_kind % 2 == 1 { " with a key containing octets >= 0x80" } else { "" },
         plan.obfs,
         ["none", "up", "configured but down"][(plan.backend % 3) as usize],
         plan.hv,
